@@ -454,8 +454,8 @@ Definition validate_segment (idspan : span) (l : list cfgpair) : list diag :=
   ++ (if existsb (fun p => text_eqb (cp_key p) t_name) l then [] else [mkDiag DMissingFields (Some idspan) [t_name] []]).
 
 (* `self.segments.insert(name, Segment::new(opts)); if self.current_segment.is_none() { self.current_segment = Some(name) }` *)
-Definition install_segment (name : ident) (seg : segment) (c : ctx) : ctx :=
-  log (set_segments c (seg_put (segments c) name seg)
+Definition install_segment (name : ident) (o : segment_options) (c : ctx) : ctx :=
+  log (set_segments c (seg_put (segments c) name (seg_new o))
                     (match current_segment c with None => Some name | cur => cur end)) (EvSegNew name).
 (* `seg.set_pc(pc)` on the current segment, if any *)
 Definition set_current_pc (pc : Z) (c : ctx) : ctx :=
@@ -505,7 +505,7 @@ Definition define_segment (idspan : span) (l : list cfgpair) : M unit :=
                              ret (match v with Some t => as_usize t | None => initial_pc end)
                  | None => ret initial_pc
                  end) ;;
-      modify (install_segment name (seg_new (mkSegOpts bank initial_pc write target)))
+      modify (install_segment name (mkSegOpts bank initial_pc write target))
   end.
 
 Definition ascii_bytes (s : text) : option (list N) :=
